@@ -7,5 +7,5 @@ import (
 
 func main() {
 	c10 := &runner.Property{ID: "C10loop", Level: "exploration", Rule: "debug", BatchSize: 12, CaseTimeout: 90e9, Cases: loopp.C10LoopCases, Run: loopp.RunC10Loop}
-	runner.Main(loopp.C03(), loopp.C09(), c10)
+	runner.Main(loopp.C03(), loopp.C09(), loopp.C05(), c10)
 }
